@@ -8,6 +8,7 @@ use std::io::{BufRead, BufReader};
 use std::sync::atomic::{AtomicUsize, Ordering};
 use std::sync::{Arc, Mutex};
 
+pub mod lspclient;
 pub mod lspmodel;
 
 /// Concretise one abstract character name.
@@ -196,6 +197,7 @@ where
                     let mut nfail = 0usize;
                     let mut counters: std::collections::BTreeMap<String, usize> = Default::default();
                     let mut samples: Vec<Value> = Vec::new();
+                    let mut class_n: std::collections::HashMap<String, usize> = Default::default();
                     loop {
                         let i = next.fetch_add(1, Ordering::Relaxed);
                         if i >= cases.len() {
@@ -215,7 +217,13 @@ where
                         }
                         for fl in o.failures {
                             nfail += 1;
-                            if fails.len() < max_fail {
+                            // cap per failure class (what|site), so that a frequent (known) class
+                            // cannot crowd out a rare one
+                            let cls = format!("{}|{}", fl.what, fl.site);
+                            let n = class_n.entry(cls.clone()).or_insert(0);
+                            *n += 1;
+                            *counters.entry(format!("class:{cls}")).or_insert(0) += 1;
+                            if *n <= max_fail {
                                 fails.push(json!({"index": i, "tag": tag, "what": fl.what, "site": fl.site,
                                                   "detail": fl.detail, "case": case}));
                             }
@@ -234,7 +242,7 @@ where
                         }
                     }
                     for fl in fails {
-                        if a.failures.len() < max_fail {
+                        if a.failures.len() < max_fail * 40 {
                             a.failures.push(fl);
                         }
                     }
